@@ -336,13 +336,13 @@ CHECKS = {k: (_with_debug_parity(k, v) if k in f10_parity.DBG_SCOPE else v) for 
 
 META = {
     "C01": {
-        "text": "The operator chain decided end to end for the 10 binary and 2 unary operators and and/or: scanner lexeme -> TokenKind; parser tables joined with the TokenKind order reproduce laythe.bnf's strata, binary() parses its right operand one level higher (left associativity), and/or re-enter at their own level; token -> BinaryOp -> opcode maps preserve meaning; lhs is emitted before rhs; and/or/if/while/ternary emission skeletons and label discipline; each handler applies the operator's own f64 operation to (second-popped, first-popped) under number tests, orders strings with the operator's Ordering, raises otherwise; equality uses Value ==; Not/And/Or/JumpIfFalse decide on exactly is_false || is_nil with the right jump edge; arity check dominates push_frame; jump bias/offset clauses (F1.j); unchecked casts in handlers are guarded (F9.h). That arbitrary nestings print the right output (needs an evaluator oracle) and IEEE results are declined.",
+        "text": "The operator chain decided end to end for the 10 binary and 2 unary operators and and/or: scanner lexeme -> TokenKind; parser tables joined with the TokenKind order reproduce laythe.bnf's strata, binary() parses its right operand one level higher (left associativity), and/or re-enter at their own level; token -> BinaryOp -> opcode maps preserve meaning; lhs is emitted before rhs; and/or/if/while/ternary emission skeletons and label discipline; each handler applies the operator's own f64 operation to (second-popped, first-popped) under number tests, orders strings with the operator's Ordering, raises otherwise; equality uses Value ==; Not/And/Or/JumpIfFalse decide on exactly is_false || is_nil with the right jump edge; arity check dominates push_frame; jump bias/offset clauses (F1.j); unchecked casts in handlers are guarded (F9.h). len() equals what the encoder writes for every opcode (F1.w: jumps land where intended); Value == on numbers is exactly IEEE and reflexive on the payload-free kinds (F10.eq); every expression passes the peephole pass (F11, incl. or-pattern expansion and bounded run counters); a child expression is compiled once per path (F2.once). That arbitrary nestings print the right output (needs an evaluator oracle) and IEEE results are declined.",
         "note": "Oracle = a 12-row operator table taken from README.md / laythe.bnf in lyverif/rules/f1c_ops.py.",
         "technique": "static analysis: table composition across scanner/parser/compiler syntax trees and handler MIR (operand provenance by pop order, dominating kind tests)",
         "design_ref": "DESIGN.md §3 C01, §2 F1.c",
     },
     "C02": {
-        "text": "Twin agreement of the four variable access emitters over all (resolution, SymbolState) cases (a captured variable never maps to a raw-slot instruction; captured declarations always allocate a box); op_closure copies box references per CaptureIndex kind and reads exactly capture_count operands; boxes are allocated only by EmptyBox/Box; get/set box/capture go through the box; add_capture de-duplicates only equal Local slots. Innermost-declaration resolution and fresh-variable-per-execution are declined (properties of the resolver's symbol tables over all programs).",
+        "text": "Twin agreement of the four variable access emitters over all (resolution, SymbolState) cases (a captured variable never maps to a raw-slot instruction; captured declarations always allocate a box); op_closure copies box references per CaptureIndex kind and reads exactly capture_count operands; boxes are allocated only by EmptyBox/Box; get/set box/capture go through the box; add_capture de-duplicates only equal Local slots. Resolver traversal completeness (F2.visit) and resolver/compiler agreement on when a construct's variable comes into scope (F2.order); raw-slot instructions only under a SymbolState dispatch (F2.t raw-slot); captured state survives collection (Trace impls of Closure/Captures/LyBox/CallFrame/Fiber, ObjectRef arms trace the handle itself) and the peephole pass (F11). Innermost-declaration resolution and fresh-variable-per-execution are declined (properties of the resolver's symbol tables over all programs).",
         "note": "Structural necessary conditions of sharing-by-reference.",
         "technique": "static analysis: syntax-tree case-table comparison (syn) + MIR inspection of handlers",
         "design_ref": "DESIGN.md §3 C02",
@@ -390,25 +390,25 @@ META = {
         "design_ref": "DESIGN.md §3 C08",
     },
     "C15": {
-        "text": "Decides the 'nothing from a text with diagnostics is executed' clause: parse and resolve errors are propagated before the compiler runs, Compiler::compile returns Ok only when its diagnostics are empty, prepare/execute/ImportResult::Compiled are reachable only from compile's Ok arm, the REPL loop has no exit after a failed entry and keeps one module, every Exit signal carries a status. Totality/termination/panic-freedom for every input text is declined (not visible in code shape).",
+        "text": "Decides the 'nothing from a text with diagnostics is executed' clause: parse and resolve errors are propagated before the compiler runs, Compiler::compile returns Ok only when its diagnostics are empty, prepare/execute/ImportResult::Compiled are reachable only from compile's Ok arm, the REPL loop has no exit after a failed entry and keeps one module, every Exit signal carries a status. Totality/termination/panic-freedom for every input text is declined (not visible in code shape). Encoder range checks (F1.j); parser function context resets loop_depth (F2.scope-fn); unwrapped AST vectors are non-empty by construction (F9.empty); Number tokens stay in the f64 grammar the compiler unwraps (F1.num); resolver/compiler agree on declaration order (F2.order); line numbers are narrowed checked (F9.line-narrow); peephole counters bounded (F11 P6).",
         "note": "The totality clause of C15 is not decided; see DESIGN.md §3 C15.",
         "technique": "static analysis: dominating-guard extraction and reachability on MIR",
         "design_ref": "DESIGN.md §3 C15",
     },
     "C10": {
-        "text": "Forwarding contradiction decided structurally: a relocation mechanism exists (mark_moved reached only from List::grow) and List == List resolves the forwarding pointer, while Value == Value / Hash for Value compare the raw address; every native that grows its receiver list tests has_moved and rescans the roots on that edge. Alias visibility across containers as a history property is declined.",
+        "text": "Forwarding contradiction decided structurally: a relocation mechanism exists (mark_moved reached only from List::grow) and List == List resolves the forwarding pointer, while Value == Value / Hash for Value compare the raw address; every native that grows its receiver list tests has_moved and rescans the roots on that edge. Alias visibility across containers as a history property is declined. Block writes of List methods only on the Here arm of the receiver's own state() (F10.fwd-write); scan_roots rewrites the whole value stack (F10.scan-all); values copied out of args before scan_roots are not compared after it (F10.stale); equal values hash equal (F10.eq); the relocating vector's Trace clauses (F5.p).",
         "note": "Decides the structural necessary condition only.",
         "technique": "static analysis: call-graph reachability + dominating-guard extraction on MIR",
         "design_ref": "DESIGN.md §3 C10",
     },
     "C14": {
-        "text": "Both feature configurations type-check (the nan-boxed one is never built by the pinned suite); mod boxed / mod unboxed expose the same items, From<T> set, constants and traits; number equality and hashing are f64-based in each representation; the boxed tag algebra is decided by constant folding and cube predicates over the 64-bit word (tags distinct, inside quiet-NaN space, object tag in bits >= 48, no small tag passes the object/number tests, constructor/test/destructor compose to the identity, kind()'s switch covers the four tags); kind tables hold in the nan-boxed configuration too. Output equality over programs (needs both builds run) is declined.",
+        "text": "Both feature configurations type-check (the nan-boxed one is never built by the pinned suite); mod boxed / mod unboxed expose the same items, From<T> set, constants and traits; number equality and hashing are f64-based in each representation; the boxed tag algebra is decided by constant folding and cube predicates over the 64-bit word (tags distinct, inside quiet-NaN space, object tag in bits >= 48, no small tag passes the object/number tests, constructor/test/destructor compose to the identity, kind()'s switch covers the four tags); kind tables hold in the nan-boxed configuration too. Output equality over programs (needs both builds run) is declined. Number constants are unmodified literal parses (F1.k-num); boxed From<f64>/to_num are the identity on bits (F10.num-bits); equality exactness/reflexivity/hash agreement (F10.eq); the unchecked-cast and signature-enforcement rules of C16 (an unguarded cast is where the builds part ways).",
         "note": "Assumes heap pointers fit in 48 bits and arithmetic yields only the default quiet NaN.",
         "technique": "static analysis: second-configuration type check, syntactic item parity, constant folding + bit-cube predicate evaluation, MIR inspection of PartialEq/Hash",
         "design_ref": "DESIGN.md §3 C14",
     },
     "C11": {
-        "text": "Index discipline: every f64->usize cast in laythe_lib on an argument-derived value is dominated by an integrality test (necessary for 'fractional arguments raise and leave the receiver unchanged'); native argument contract (casts justified by declared kinds or dominating tests; arity enforcement siblings). Everything that is a function on values (sequence/map/stream semantics, Unicode indexing) is declined: no static argument in reach.",
+        "text": "Index discipline: every f64->usize cast in laythe_lib on an argument-derived value is dominated by an integrality test (necessary for 'fractional arguments raise and leave the receiver unchanged'); native argument contract (casts justified by declared kinds or dominating tests; arity enforcement siblings). Everything that is a function on values (sequence/map/stream semantics, Unicode indexing) is declined: no static argument in reach. Bounded adaptors pull only in quota, size hints propagate None, byte lengths never reach character positions (F4.iter-*, F9.utf8); growth depends on the needed size (F9.grow); every non-constant bounds check in the library is tested against the container's current len() (F9.bounds); errors recorded in callbacks reach the result (F9.err-flow); Eq/Hash agreement and forwarded writes as in C10.",
         "note": "Thin structural claim by design; see DESIGN.md §3 C11.",
         "technique": "static analysis: cast taint with dominating-guard discharge on MIR",
         "design_ref": "DESIGN.md §3 C11",
@@ -432,7 +432,7 @@ META = {
         "design_ref": "DESIGN.md §3 C18",
     },
     "C19": {
-        "text": "Cache coverage for re-compiled modules (lengths from the numbering emitter; stored at m.id(); emitter continuation) and the REPL clauses of C15 (no exit after a failed entry; one module for the session). Equivalence of a session with the concatenated file is declined.",
+        "text": "Cache coverage for re-compiled modules (lengths from the numbering emitter; stored at m.id(); emitter continuation) and the REPL clauses of C15 (no exit after a failed entry; one module for the session). Equivalence of a session with the concatenated file is declined. Every existing module symbol is re-declared in slot order (F4.repl-slots); resolve_capture's state dispatches agree with each other and with variable_get's module arm (F4.repl-capture); upsert stores the new source on both arms (F4.repl-source); the run queue is only pushed to and popped from (F4.runq); sentinel equality (F10.eq).",
         "note": "Thin structural claim; see DESIGN.md §3 C19 for the declined clause.",
         "technique": "static analysis: def-use on MIR",
         "design_ref": "DESIGN.md §3 C19",
